@@ -341,12 +341,12 @@ def setup(concepts, spec):
     attach.attach_ctor(concepts)
     C, D = concepts.Context, concepts.Definition
     cx, df, fm = concepts.contexts, concepts.definitions, concepts.formats
-    attach.attach(cx.FormattingMixin, 'tostring', ToString('ctx'))
-    attach.attach(cx.Data, 'fromstring', FromString())
-    attach.attach(cx.ExportableMixin, 'tofile', ToFile('ctx'))
-    attach.attach(cx.Data, 'fromfile', FromFile('ctx'))
-    attach.attach(df.FormattingMixin, 'tostring', ToString('def'))
-    attach.attach(df.Triple, 'fromfile', FromFile('def'))
+    attach.attach(concepts.Context, 'tostring', ToString('ctx'))
+    attach.attach(concepts.Context, 'fromstring', FromString())
+    attach.attach(concepts.Context, 'tofile', ToFile('ctx'))
+    attach.attach(concepts.Context, 'fromfile', FromFile('ctx'))
+    attach.attach(concepts.Definition, 'tostring', ToString('def'))
+    attach.attach(concepts.Definition, 'fromfile', FromFile('def'))
     for name in ('load', 'loads', 'dump', 'dumps'):
         attach.attach(fm.base.Format, name, Counter('Format.' + name))
     for name in ('load', 'load_csv', 'load_cxt', 'make_context'):
